@@ -85,7 +85,9 @@ class _Idioms(ast.NodeTransformer):
 
     def visit_List(self, node):
         self.generic_visit(node)
-        if isinstance(node.ctx, ast.Load) and len(node.elts) >= 2 and all(isinstance(e, ast.Starred) for e in node.elts):
+        # [*a, *b] -> a + b only for plain names / attribute paths (an operand like `(x if c else ())` may be a tuple: `+` would
+        # not be the same operation)
+        if isinstance(node.ctx, ast.Load) and len(node.elts) >= 2 and all(isinstance(e, ast.Starred) and isinstance(e.value, (ast.Name, ast.Attribute)) for e in node.elts):
             self.n += 1
             out = node.elts[0].value
             for e in node.elts[1:]:
